@@ -47,6 +47,11 @@ def run(ctx: RuleContext):
 
     ctx.reuse("C11.6", check_manual_patches, ctx)
     ctx.reuse("C11.6", check_patch_extent, ctx)
+    # C11.7: "checked by the checker given to the install call that loaded them, also when several hooks are active": the decorator a
+    # loaded module resolves is looked up under the hash of the typechecker string, so that hash must tell any two strings apart (C18.2)
+    from .c18 import check_hash
+
+    ctx.reuse("C11.7", check_hash, ctx)
 
 
 # ------------------------------------------------------------------------ C11.1
@@ -546,6 +551,19 @@ def check_front_ends(ctx):
         else:
             ctx.bad("C11.5", pc, st_ if end != "last" else c, "the pytest option is not split into (all but last -> packages, last -> typechecker) and passed to install_import_hook in that order",
                     construct="pytest_configure wiring")
+    # nothing the plugin does before `install_import_hook(..)` may import a module named by the user (validating the typechecker by importing its
+    # root package loads that package -- and whatever its __init__ imports -- while no hook is on sys.meta_path: a named package is then
+    # silently left unmodified)
+    pc_fn = next((f2 for f2 in m.all_functions(include_typeguard=False) if f2.module.short == "_pytest_plugin" and f2.name == "pytest_configure"), None)
+    if pc_fn is not None:
+        inst_calls = [c for c in m.calls_in(pc_fn) if norm(c.func).split(".")[-1] == "install_import_hook"]
+        first_install = min((c.lineno for c in inst_calls), default=None)
+        for c in m.calls_in(pc_fn):
+            nm_ = norm(c.func)
+            if nm_ in ("importlib.import_module", "import_module", "__import__", "pkgutil.resolve_name", "importlib.util.find_spec", "find_spec") and c.args \
+                    and not isinstance(c.args[0], ast.Constant) and (first_install is None or c.lineno < first_install):
+                ctx.bad("C11.5", pc_fn, c, f"`{short(c, 60)}` imports (or resolves, which imports the parent packages of) a module named on the command line before the hook is installed: "
+                        "if it lies in -- or pulls in -- one of the named packages, that package is loaded unmodified and stays so", construct="user-named import before install_import_hook")
     # the plugin may take its hook down again only if it knows the hook is *its own session's*: a manager kept in a module-level variable is
     # shared by every pytest session of the process (pytester / nested `pytest.main`), so an inner session's teardown uninstalls the outer
     # session's hook and packages named there load uninstrumented afterwards
